@@ -34,6 +34,10 @@ def main():
                 out = subprocess.run(cmd + ["--wall", "90"], capture_output=True, text=True, cwd=HERE, timeout=400)
             except subprocess.TimeoutExpired:
                 results.append((m["id"], m["prop"], "TIMEOUT")); continue
+            if m.get("expect") == "clean":  # a change that keeps the property: the check must stay quiet (false-alarm probe)
+                ok = out.returncode == 0 and "VIOLATION" not in out.stdout
+                results.append((m["id"], m["prop"], ("caught (stayed clean as expected)" if ok else "FALSE-ALARM " + str([l for l in out.stdout.splitlines() if l.startswith("violation:")][:2])) + f" {time.time()-t:.0f}s"))
+                continue
             caught = out.returncode == 1 and "VIOLATION property=%s" % m["prop"] in out.stdout
             sigs = [l.split(":")[1].strip() for l in out.stdout.splitlines() if l.startswith("violation:")]
             status = "caught" if caught else ("HARNESS-ERROR" if out.returncode == 2 else "MISSED")
